@@ -45,6 +45,8 @@ impl Xf {
     /// v * 2^k
     pub fn scaled(v: f64, k: i64) -> Xf { Xf::norm(v, k) }
     pub fn special(&self) -> bool { self.m == 0.0 || !self.m.is_finite() }
+    /// the value is a normal double
+    pub fn in_range(&self) -> bool { !self.special() && self.e >= -1022 && self.e <= 1023 }
     pub fn image(&self) -> f64 {
         // nearest f64 (inf / 0 outside the range); gradual underflow handled by two-step scaling
         if self.special() { return self.m; }
@@ -125,19 +127,30 @@ impl<'b> MulAssign<&'b Xf> for Xf { fn mul_assign(&mut self, o: &'b Xf) { *self 
 
 impl MomTropFloat for Xf {
     fn one(&self) -> Self { Xf::ONE }
+    // inside the f64 range the elementary functions ARE the f64 functions (a run with moderate values is then bit-identical
+    // to the f64 run); outside it they are evaluated from mantissa and exponent
     fn ln(&self) -> Self {
-        if self.special() { return Xf::f(self.m.ln()); }
+        if self.special() || self.in_range() { return Xf::f(self.image().ln()); }
         Xf::f(self.m.ln() + self.e as f64 * std::f64::consts::LN_2)
     }
     fn exp(&self) -> Self {
         let x = self.image();
+        let direct = x.exp();
+        if direct.is_nan() || (direct.is_normal()) || x == 0.0 { return Xf::f(direct); }
         let k = (x / std::f64::consts::LN_2).floor();
-        if !k.is_finite() { return Xf::f(x.exp()); }
+        if !k.is_finite() || k.abs() > 1e15 { return Xf::f(direct); }
         Xf::norm((x - k * std::f64::consts::LN_2).exp(), k as i64)
     }
     fn cos(&self) -> Self { Xf::f(self.image().cos()) }
     fn sin(&self) -> Self { Xf::f(self.image().sin()) }
-    fn powf(&self, power: &Self) -> Self { MomTropFloat::exp(&Xf::mul_x(*power, MomTropFloat::ln(self))) }
+    fn powf(&self, power: &Self) -> Self {
+        if (self.special() || self.in_range()) && (power.special() || power.in_range()) {
+            let direct = self.image().powf(power.image());
+            if direct.is_nan() || direct.is_normal() || self.m == 0.0 || direct == 1.0 { return Xf::f(direct); }
+        }
+        if self.m == 0.0 { return Xf::f(0f64.powf(power.image())); }
+        MomTropFloat::exp(&Xf::mul_x(*power, MomTropFloat::ln(self)))
+    }
     fn sqrt(&self) -> Self { self.sqrt_x() }
     fn from_isize(&self, value: isize) -> Self { Xf::f(value as f64) }
     fn from_f64(&self, value: f64) -> Self { Xf::f(value) }
